@@ -22,31 +22,67 @@ def hexEncode : Bytes → Bytes
   | [] => []
   | b :: bs => hexDigit (b.toNat / 16) :: hexDigit (b.toNat % 16) :: hexEncode bs
 
-/-- one header line `key SP value LF`; a multi-line value is written with LF SP continuation -/
-def serHeader (k v : Bytes) : Bytes := k ++ [32] ++ v ++ [10]
+/-- one line of a header block: `pre SP post LF`. A header `key value` is the line `⟨key, value⟩`; a
+    multi-line header (gpgsig, mergetag) continues with lines whose `pre` is empty (they start with
+    the space). -/
+structure Line where
+  pre : Bytes
+  post : Bytes
+deriving Repr
 
+def Line.ser (l : Line) : Bytes := l.pre ++ 32 :: (l.post ++ [10])
+
+/-- what git guarantees of a header line: no space or LF before the first space, no LF after it -/
+def Line.OK (l : Line) : Prop := (32 : UInt8) ∉ l.pre ∧ (10 : UInt8) ∉ l.pre ∧ (10 : UInt8) ∉ l.post
+
+def serLines (ls : List Line) : Bytes := ls.flatMap Line.ser
+
+/-- what follows the header block: nothing, or a blank line and the message -/
+def msgPart : Option Bytes → Bytes
+  | none => []
+  | some m => 10 :: m
+
+/-- a commit object as git writes it: the tree line, the parent lines directly after it, then any
+    other header lines (author, committer, encoding, gpgsig and mergetag with their continuation
+    lines, and extra headers — which MAY be spelt `parent …` or `tree …`), then optionally a blank
+    line and the message (any bytes) -/
 structure CommitObj where
   tree : Bytes
   parents : List Bytes
-  extra : List (Bytes × Bytes)   -- author, committer, encoding, gpgsig, mergetag, … (values may contain "\n ")
+  extra : List Line
   message : Option Bytes         -- `none`: no blank line at all
 deriving Repr
 
+def CommitObj.lines (c : CommitObj) : List Line :=
+  ⟨kTree, hexEncode c.tree⟩ :: (c.parents.map (fun p => ⟨kParent, hexEncode p⟩) ++ c.extra)
+
 def serCommit (c : CommitObj) : Bytes :=
-  serHeader kTree (hexEncode c.tree) ++ c.parents.flatMap (fun p => serHeader kParent (hexEncode p)) ++
-  c.extra.flatMap (fun kv => serHeader kv.1 kv.2) ++
-  (match c.message with | none => [] | some m => [10] ++ m)
+  serLines c.lines ++ msgPart c.message
+
+/-- well-formed: 20-byte ids, well-formed lines, and the first line after the parents is not
+    itself spelt like a parent or a tree (it is `author` in every object git accepts) -/
+structure CommitObj.OK (c : CommitObj) : Prop where
+  tree : c.tree.length = 20
+  parents : ∀ p ∈ c.parents, p.length = 20
+  lines : ∀ l ∈ c.extra, l.OK
+  first : ∀ l, c.extra.head? = some l → l.pre ≠ kParent ∧ l.pre ≠ kTree
 
 structure TagObj where
   object : Bytes
   type : Bytes
-  extra : List (Bytes × Bytes)   -- tag, tagger, …
+  extra : List Line              -- tag, tagger, …, extra headers (which MAY be spelt `object …` / `type …`)
   message : Option Bytes
 deriving Repr
 
+def TagObj.lines (t : TagObj) : List Line := ⟨kObject, hexEncode t.object⟩ :: ⟨kType, t.type⟩ :: t.extra
+
 def serTag (t : TagObj) : Bytes :=
-  serHeader kObject (hexEncode t.object) ++ serHeader kType t.type ++
-  t.extra.flatMap (fun kv => serHeader kv.1 kv.2) ++
-  (match t.message with | none => [] | some m => [10] ++ m)
+  serLines t.lines ++ msgPart t.message
+
+structure TagObj.OK (t : TagObj) : Prop where
+  object : t.object.length = 20
+  type : (10 : UInt8) ∉ t.type
+  lines : ∀ l ∈ t.extra, l.OK
+  first : ∀ l, t.extra.head? = some l → l.pre ≠ kObject ∧ l.pre ≠ kType
 
 end GitSizer.Spec
